@@ -20,6 +20,7 @@ func checkC02(e *Engine, r *Report) {
 		"confinement: updatePinning tells each member container exactly Cpus ∪ SharedIdleCpus of its balloon (or one thread per core of exactly that set) and pinCpuMem passes the set on unchanged; assignContainer and every successful resize re-pin the balloon; balloons returned by shareIdleCpus are always re-pinned; membership is only created by assignContainer, called once per successful AllocateResources",
 		"R2 limits: resizeBalloon clamps the CPU count to [MinCpus, MaxCpus]; newBalloon refuses to exceed MaxBalloons; freeBalloon deletes only above MinBalloons; a container is assigned only if the balloon already has, or was successfully resized to, max(1, requested) milli-CPUs",
 		"R1 CPU class bracket: a balloon's CPUs are set to the idle class before and to the balloon's class after every change of its CPU set; deleting a balloon idles its CPUs; applying a configuration resets all CPUs and then applies every balloon's class; cpu.Assign adds CPUs to the named class and removes them from every other class",
+		"round 4: subset typing of the CPU-tree resizers (addFrom within the free CPUs); resize direction (Union only under target > size, Difference only under target <= size); balloonByContainer returns a balloon only under equality of one of its listed ids with the container's id; deleteBalloon keeps every other balloon and drops that one; setConfig empties the balloon list and resets the free set before the first applyBalloonDef",
 	}
 	r.NotDecided = []string{"that the sizes chosen equal the containers' requests", "the CPU tree allocator's choices", "that cputree.ResizeCpus honours its documented contract (assumption)"}
 	r.Assumptions = []string{"cputree ResizeCpus: removeFromCpus ⊆ the balloon's CPUs (addFromCpus ⊆ free CPUs is decided by subset typing)", "cpuallocator (C08): AllocateCpus returns a subset of the set it is given; ReleaseCpus leaves a subset of it behind", "free CPUs and balloon CPUs are disjoint at function entry (established by setConfig, preserved by the frame lemmas)"}
